@@ -243,6 +243,32 @@ func (o *Obligation) Query2() (string, []string, []*Term) {
 		gt = append(gt, Const(n, si.consts[n]))
 	}
 	for _, t := range ex.infoCache {
+		// only terms over symbols this query declares (an undeclared constant makes the whole get-value fail)
+		ti := collect([]*Term{t})
+		ok := true
+		for n := range ti.consts {
+			if _, d := si.consts[n]; !d {
+				ok = false
+			}
+		}
+		for n := range ti.funcs {
+			if _, d := si.funcs[n]; !d {
+				ok = false
+			}
+		}
+		for n := range ti.boxes {
+			if _, d := si.boxes[n]; !d {
+				ok = false
+			}
+		}
+		for n := range ti.sorts {
+			if _, d := si.sorts[n]; !d {
+				ok = false
+			}
+		}
+		if !ok {
+			continue
+		}
 		gv = append(gv, t.String())
 		gt = append(gt, t)
 	}
@@ -717,8 +743,15 @@ func (V *Verifier) solveRendered(o *Obligation, pass int) {
 			o.Model = parseValuesStr(res.output, r.gts)
 			if !o.Cover {
 				// prefer a small counterexample (replayable sizes): re-solve with every integer of interest bounded
-				if m2 := V.smallModel(file, r); m2 != nil {
+				if m2 := V.smallModel(file, r, 0); m2 != nil {
 					o.Model = m2
+				}
+				// further genuine counterexamples with differently shaped real values (for the replay:
+				// uninterpreted functions such as trunc/floor make the first model's reals arbitrary)
+				for variant := 1; variant <= 4; variant++ {
+					if m2 := V.smallModel(file, r, variant); m2 != nil {
+						o.AltModels = append(o.AltModels, m2)
+					}
 				}
 			}
 		}
@@ -1261,7 +1294,7 @@ func termSize(t *Term) int {
 }
 
 // smallModel re-runs the (satisfiable) query with bounds on all integer terms of interest.
-func (V *Verifier) smallModel(file string, r *rendered) map[string]string {
+func (V *Verifier) smallModel(file string, r *rendered, variant int) map[string]string {
 	text := r.text
 	k := strings.LastIndex(text, "(check-sat)")
 	if k < 0 {
@@ -1269,10 +1302,28 @@ func (V *Verifier) smallModel(file string, r *rendered) map[string]string {
 	}
 	var sb strings.Builder
 	sb.WriteString(text[:k])
+	nreal := 0
 	for i, g := range r.gt {
 		if g.S == SInt {
 			sb.WriteString(fmt.Sprintf("(assert (and (<= (- 4) %s) (<= %s 40)))\n", r.gts[i], r.gts[i]))
 		}
+		if g.S == SReal && variant > 0 {
+			nreal++
+			t := r.gts[i]
+			switch variant {
+			case 1:
+				sb.WriteString(fmt.Sprintf("(assert (and (< %s 0.0) (not (is_int %s))))\n", t, t))
+			case 2:
+				sb.WriteString(fmt.Sprintf("(assert (and (> %s 1.0) (not (is_int %s))))\n", t, t))
+			case 3:
+				sb.WriteString(fmt.Sprintf("(assert (> %s 400.0))\n", t))
+			case 4:
+				sb.WriteString(fmt.Sprintf("(assert (< %s (- 400.0)))\n", t))
+			}
+		}
+	}
+	if variant > 0 && nreal == 0 {
+		return nil
 	}
 	sb.WriteString(text[k:])
 	sfile := strings.TrimSuffix(file, ".smt2") + ".small.smt2"
